@@ -224,6 +224,9 @@ class CallTracer:
         self.cache: Dict[int, Tuple[CodeType, Optional[Callable[..., Any]]]] = {}
         self.should_trace = code_filter
         self.max_typed_dict_size = max_typed_dict_size
+        # Sampling must not draw from (or be steered by) the random number
+        # generator of the traced program.
+        self._random = random.Random()
 
     def _get_func(self, frame: FrameType) -> Optional[Callable[..., Any]]:
         code = frame.f_code
@@ -237,7 +240,7 @@ class CallTracer:
         return entry[1]
 
     def handle_call(self, frame: FrameType) -> None:
-        if self.sample_rate and random.randrange(self.sample_rate) != 0:
+        if self.sample_rate and self._random.randrange(self.sample_rate) != 0:
             return
         func = self._get_func(frame)
         if func is None:
